@@ -10,6 +10,8 @@
 #include <string>
 #include <map>
 #include <utility>
+#include <unistd.h>
+#include <sys/wait.h>
 struct Foo; // incomplete, like T in the harness
 static std::map<std::string, unsigned long long> args;
 using W = uintptr_t;
@@ -45,6 +47,15 @@ template <W MB, W MU> struct Inst {
 static W low_ones(W n) { return n >= 64 ? ~W(0) : ((W(1) << n) - 1); }
 static W reserved(W mb, W mu) { W up = mb < mu ? mb : mu, lo = mb - up; return ~low_ones(64 - up) | low_ones(lo); }
 
+// does the class' own precondition (the assert in make_ptr) accept p?  Evaluated by running the REAL constructor in a child process.
+static bool accepts(const Ops& o, W p, W m) {
+  fflush(stdout);
+  pid_t c = fork();
+  if (c == 0) { if (!freopen("/dev/null", "w", stderr)) _exit(3); (void)o.make(p, m); _exit(0); }
+  int st = 0; waitpid(c, &st, 0);
+  return WIFEXITED(st) && WEXITSTATUS(st) == 0;
+}
+
 static int run(const Ops& o, W MB, W MU) {
   W p = args["in_p"], m = args["in_m"], p2 = args["in_p2"], m2 = args["in_m2"], w = args["in_w"], w2 = args["in_w2"];
   if (MB == 0) {
@@ -61,9 +72,12 @@ static int run(const Ops& o, W MB, W MU) {
   CHECK("mp.consts.layout", o.pointer_mask == W(~rsv) && o.pointer_bits == 64 - MB && o.mark_mask == mm && o.nmb == MB && o.upper == (MB < MU ? MB : MU) && o.lower + o.upper == MB,
         "pointer_mask=%#zx (spec %#zx) pointer_bits=%zu lower=%zu upper=%zu", Z(o.pointer_mask), Z(W(~rsv)), Z(o.pointer_bits), Z(o.lower), Z(o.upper));
   bool canon = (p & rsv) == 0, canon2 = (p2 & rsv) == 0;
-  CHECK("mp.ctor.precondition", ((p & ~o.pointer_mask) == 0) == canon, "the class' assert %s p=%#zx, the specification says %s",
-        canon ? "rejects" : "accepts", Z(p), canon ? "canonical" : "not canonical");
-  if (canon && (p & ~o.pointer_mask) == 0) {
+  bool acc = accepts(o, p, m), acc2 = accepts(o, p2, m2);
+  CHECK("mp.ctor.precondition", acc == canon, "the class' assert %s p=%#zx, the specification says %s",
+        acc ? "accepts" : "rejects", Z(p), canon ? "canonical" : "not canonical");
+  CHECK("mp.ctor.precondition", acc2 == canon2, "the class' assert %s p=%#zx, the specification says %s",
+        acc2 ? "accepts" : "rejects", Z(p2), canon2 ? "canonical" : "not canonical");
+  if (acc) {       // whatever the class accepts must round-trip
     W x = o.make(p, m);
     CHECK("mp.get.roundtrip", o.get(x) == p, "marked_ptr<T,%zu,%zu>(%#zx, %#zx).get() = %#zx", Z(MB), Z(MU), Z(p), Z(m), Z(o.get(x)));
     CHECK("mp.get.roundtrip", o.arrow(x) == p, "operator-> = %#zx", Z(o.arrow(x)));
@@ -72,7 +86,7 @@ static int run(const Ops& o, W MB, W MU) {
     bool null0 = p == 0 && (m & mm) == 0;
     CHECK("mp.reset.null", o.boolean(x) == !null0, "operator bool = %d for (p=%#zx, mark=%#zx)", (int)o.boolean(x), Z(p), Z(m & mm));
     CHECK("mp.reset.null", o.eq(x, o.reset(w)) == null0, "== with a reset pointer");
-    if (canon2 && (p2 & ~o.pointer_mask) == 0) {
+    if (acc2) {
       W y = o.make(p2, m2);
       bool same = p == p2 && (m & mm) == (m2 & mm);
       CHECK("mp.eq.value", o.eq(x, y) == same, "(%#zx,%#zx) == (%#zx,%#zx) gives %d, expected %d", Z(p), Z(m), Z(p2), Z(m2), (int)o.eq(x, y), (int)same);
@@ -87,7 +101,9 @@ static int run(const Ops& o, W MB, W MU) {
   { // any representation word
     W g = o.get(w), k = o.mark(w);
     CHECK("mp.repr.bijective", (g & rsv) == 0 && k <= mm, "word %#zx: get()=%#zx mark()=%#zx", Z(w), Z(g), Z(k));
-    if ((g & ~o.pointer_mask) == 0) {
+    bool accg = accepts(o, g, k);
+    CHECK("mp.repr.bijective", accg, "get() = %#zx of word %#zx is rejected by the constructor's assert", Z(g), Z(w));
+    if (accg) {
       W c = o.make(g, k);
       CHECK("mp.repr.bijective", c == w && o.eq(c, w), "word %#zx rebuilt from (get, mark) = (%#zx, %#zx) is %#zx", Z(w), Z(g), Z(k), Z(c));
     }
